@@ -109,6 +109,9 @@ func mergeSubCmds(ab *cmdsPair, a, b *cmd) {
 		mergeRefs(ab, as, bs)
 		if as == nil {
 			a.sub = append(a.sub, bs)
+			// Is now subcommand of a. This is needed to get the name
+			// of a, when bs is added incrementally to device.
+			bs.subCmdOf = a
 		}
 	}
 }
